@@ -763,8 +763,17 @@ class Gen:
     def name_for_const(self):
         if self.p.get('trap_names') and self.integer(0, 2) == 0:
             base = self.fresh('v')
-            return self.pick([base + '_prefix', '_' + base, f'x{self.integer(1, 999)}__fresh', f'|{base} q|', f'|{base}|',
-                              base + '_suffix', '__' + base])
+            n = self.counter
+            # quoted symbols whose content reads like a literal are symbols all the same,
+            # and so is the empty quoted symbol
+            cands = [base + '_prefix', '_' + base, f'x{self.integer(1, 999)}__fresh', f'|{base} q|', f'|{base}|',
+                     base + '_suffix', '__' + base, f'|{n}|', f'|#b{n:b}|', f'|{n}.0|', f'|#x{n:x}|']
+            if not getattr(self, 'used_empty_symbol', False):
+                cands.append('||')
+            name = self.pick(cands)
+            if name == '||':
+                self.used_empty_symbol = True
+            return name
         return self.fresh(self.pick(['v', 'x', 'a', 'b']))
 
 
